@@ -121,8 +121,11 @@ type Tx struct {
 	Fee        map[string]string `json:"fee,omitempty"`     // denom -> amount
 	FeeGranter string            `json:"granter,omitempty"`
 	FeePayer   string            `json:"payer,omitempty"` // explicit fee payer (co-signs); default: the first signer
-	BadSig     bool              `json:"badsig,omitempty"`
-	SeqDelta   int64             `json:"seqdelta,omitempty"`
+	// Signed: the messages that were actually signed (amino-JSON mode) when they differ from Msgs: the
+	// transaction was altered after signing and must be refused
+	Signed   []Msg `json:"signed,omitempty"`
+	BadSig   bool  `json:"badsig,omitempty"`
+	SeqDelta int64 `json:"seqdelta,omitempty"`
 }
 
 func (t Tx) FeeOf(denom string) *big.Int {
@@ -674,6 +677,11 @@ func (s *State) entWhitelist(m Msg) string {
 		return "bad_action"
 	}
 	return ""
+}
+
+// NewProbeState: an empty state, enough to ask a message builder what shape its message has.
+func NewProbeState() *State {
+	return &State{Wrk: Anchor{Ents: map[uint64]*Entity{}}, Bcn: Anchor{Ents: map[uint64]*Entity{}}, Str: map[string]*Stream{}}
 }
 
 // ---- anchoring (A.3) ----
